@@ -218,6 +218,20 @@ def _pick_alias(rng, model):
 # Execution
 
 
+class _RecDict(dict):
+    """`Object.aliases` replacement that remembers who wrote which slot, in order (observation only)."""
+
+    def __init__(self):
+        super().__init__()
+        self.writes = {}
+        self.seq = 0
+
+    def __setitem__(self, key, value):
+        self.seq += 1
+        self.writes.setdefault(key, []).append((self.seq, id(value)))
+        super().__setitem__(key, value)
+
+
 class Executor:
     def __init__(self, ctx, model_only=False, preparent=False):
         self.ctx = ctx
@@ -286,6 +300,8 @@ class Executor:
                 real = g.Function(name, **kw)
             else:
                 real = g.Attribute(name, **kw)
+            if kind != "alias":
+                real.aliases = _RecDict()
             self.objs[node.uid] = real
             self.uids[id(real)] = node.uid
         return node, real, tags
@@ -642,15 +658,14 @@ class Executor:
                     elif t is not None:
                         # (6) registered among the target's aliases under the current path
                         reg = t.aliases.get(dotted)
-                        key = (cn.uid, id(t), dotted)
-                        if reg is co:
-                            self.reg_seen_ok.add(key)
                         if reg is not co:
                             tags = ["moved-subtree"] if self._moved_with_ancestor(cn) else []
-                            if reg is not None and key in self.reg_seen_ok:
-                                # this alias *was* registered here after it got bound; later another alias object that
-                                # lived at this path earlier (deleted, replaced or moved away since; entries are never
-                                # purged) re-registered itself and displaced it
+                            writes = t.aliases.writes.get(dotted, []) if isinstance(t.aliases, _RecDict) else []
+                            mine = [seq for seq, who in writes if who == id(co)]
+                            if reg is not None and mine and writes[-1][1] != id(co):
+                                # this alias did register itself here; later another alias object that lived at this
+                                # path earlier (deleted, replaced or moved away since; entries are never purged)
+                                # re-registered itself and displaced it
                                 tags.append("slot-held-by-stale-alias")
                             ctx.fail("I6-registration", f"resolved alias {dotted} is not listed in its target's aliases under that path (keys: {sorted(t.aliases)[:6]})", tags=tags)
                             return False
